@@ -259,6 +259,80 @@ def _factor_sign(node):
     return None
 
 
+# -------------------------------------------------------------------- DIFF-SYM
+def diff_sym(ctx):
+    """Antisymmetry needs more than the orientation of the subtraction: the factors that turn
+    degrees into metres must not depend on which operand is called `first`."""
+    ctx.rule('DIFF-SYM', 'the metre scale of the position difference is evaluated at a point that '
+             'is symmetric in the two operands (e.g. their mid-point): d(a, b) = -d(b, a) also '
+             'for states that are far apart')
+    from ..nf import Alg
+    f = ctx.repo.function('transform.compute_state_difference')
+    res = lambda n: f.module.resolve(n, f.local_names())
+    sub = None
+    for st in ast.walk(f.node):
+        if isinstance(st, ast.Assign) and isinstance(st.value, ast.BinOp) and \
+                isinstance(st.value.op, ast.Sub) and isinstance(st.value.left, ast.Name) and \
+                isinstance(st.value.right, ast.Name):
+            sub = st
+    ctx.need(sub is not None, 'compute_state_difference: `difference = A - B` not found')
+    a, b = sub.value.left.id, sub.value.right.id
+    calls = [n for n in ast.walk(f.node) if isinstance(n, ast.Call) and
+             res(n.func) == 'pyins.earth.principal_radii']
+    ctx.floor('DIFF-SYM', len(calls), 1, 'principal_radii calls')
+    A = Alg()
+
+    def ev(e, swap):
+        if isinstance(e, ast.Constant) and isinstance(e.value, (int, float)):
+            return A.const(e.value)
+        if isinstance(e, ast.Attribute) and isinstance(e.value, ast.Name) and \
+                e.value.id in (a, b):
+            who = e.value.id
+            if swap:
+                who = b if who == a else a
+            return A.sym('%s_%s' % (e.attr, 'A' if who == a else 'B'))
+        if isinstance(e, ast.Subscript) and isinstance(e.value, ast.Name) and \
+                e.value.id in (a, b) and isinstance(e.slice, ast.Constant):
+            who = e.value.id
+            if swap:
+                who = b if who == a else a
+            return A.sym('%s_%s' % (e.slice.value, 'A' if who == a else 'B'))
+        if isinstance(e, ast.BinOp):
+            x, y = ev(e.left, swap), ev(e.right, swap)
+            if isinstance(e.op, ast.Add):
+                return A.add(x, y)
+            if isinstance(e.op, ast.Sub):
+                return A.sub(x, y)
+            if isinstance(e.op, ast.Mult):
+                return A.mul(x, y)
+            if isinstance(e.op, ast.Div):
+                return A.div(x, y)
+        if isinstance(e, ast.UnaryOp) and isinstance(e.op, ast.USub):
+            return A.neg(ev(e.operand, swap))
+        if isinstance(e, ast.Name):
+            # a local: follow its single definition
+            defs = [s2 for s2 in ast.walk(f.node) if isinstance(s2, ast.Assign) and
+                    len(s2.targets) == 1 and isinstance(s2.targets[0], ast.Name) and
+                    s2.targets[0].id == e.id]
+            if len(defs) == 1 and e.id not in (a, b):
+                return ev(defs[0].value, swap)
+        raise ValueError(norm_text(e))
+    for call in calls:
+        try:
+            same = all(A.eq(ev(x, False), ev(x, True)) for x in call.args)
+            why = ''
+        except ValueError as e:
+            raise AnalysisError('compute_state_difference: argument `%s` of principal_radii not '
+                                'understood' % e)
+        ctx.ob('DIFF-SYM', same, None, 'principal_radii(%s) is unchanged when `%s` and `%s` are '
+               'exchanged' % (', '.join(norm_text(x) for x in call.args), a, b), f=f, node=call,
+               key='scale',
+               why='the radii that scale the lat/lon difference into metres are evaluated at '
+                   '`%s`, which changes when the operands are exchanged: d(a, b) + d(b, a) is of '
+                   'the order (separation / Earth radius) * separation instead of zero'
+                   % ', '.join(norm_text(x) for x in call.args))
+
+
 # ------------------------------------------------------------------ WRAP-RANGE
 class Iv:
     """interval with open/closed ends and the accumulated shift."""
